@@ -61,6 +61,14 @@ def run_equiv(c):
             xin = x
         else:
             xin = pack_padded_sequence(x, torch.tensor(lens), batch_first=c['bf'], enforce_sorted=(c['input'] == 'packed_sorted'))
+        if c['input'] != 'padded' and c.get('warm', True) and B > 1:
+            # the same layer instances first see another packed batch with the same B and max length but other lengths
+            lens0 = list(reversed(lens)) if c['input'] == 'packed_unsorted' else sorted([T] + [max(1, T - 1 - (i % T)) for i in range(B - 1)], reverse=True)
+            x0 = torch.randn(x.shape, generator=g)
+            xin0 = pack_padded_sequence(x0, torch.tensor(lens0), batch_first=c['bf'], enforce_sorted=(c['input'] == 'packed_sorted'))
+            with torch.no_grad():
+                for m in (t, d):
+                    m(xin0, state) if state is not None else m(xin0)
         res = []
         for m in (t, d):
             for p in m.parameters():
